@@ -62,6 +62,19 @@ func findReload(c *Ctx, rule string) *reloadAnchors {
 		a.owner = ups[0]
 	}
 	a.runCfg = eng.Root(a.owner)
+	// the owner may be a named function started with `go` (go s.serveConfig(config, run)): the configuration function is
+	// then the one that starts it
+	if a.owner.Parent() == nil {
+		var starters []*ssa.Function
+		for _, s := range c.P.CallSitesOf(a.owner) {
+			if _, isGo := s.Ins.(*ssa.Go); isGo && !c.P.IsTestSupport(s.Fn) {
+				starters = append(starters, eng.Root(s.Fn))
+			}
+		}
+		if len(starters) == 1 {
+			a.runCfg = starters[0]
+		}
+	}
 	// the start closure: a call in owner to a closure with an error result that reaches listenerSet.Listen*
 	listenQ := isCall("(*"+a.lsType+").ListenStream", "(*"+a.lsType+").ListenPacket")
 	memo := map[*ssa.Function]int{}
